@@ -188,6 +188,8 @@ async def check_case(case, rec, ctx):
         check_serve_health(PROPERTY, r1, 1)
         ref_rc = H.returncode_class(r1.result.returncode)
         rec.event("reference:" + ref_rc)
+        from props.c01 import _succeeded_with_detached_input
+        case["_ref_orphan"] = bool(_succeeded_with_detached_input(r1.result.tables))
         ref_files = non_user_files(r1.after, user_files)
         ref_graph = H.project_graph(r1.result.tables) + H.outcome_facts(r1.result.tables)
         # When did the job loop end? (cleanup window = images after the "Ran N job(s)" report)
@@ -241,8 +243,15 @@ async def check_image(case, tag, image_dir, stage1, ref_rc, ref_files, ref_graph
         raise Violation(f"{PROPERTY}/observer", f"{where}: {result.observer_failures[:1]}")
     rc = H.returncode_class(result.returncode)
     if rc != ref_rc:
+        sig = f"{PROPERTY}/returncode-differs-after-restart"
+        if case.get("_ref_orphan") and ref_rc == "OK" and rc == "PENDING":
+            # Root-cause refinement (the C01 finding seen from here): the uninterrupted build
+            # keeps a consumer SUCCEEDED whose producer was dropped from the plan; the restarted
+            # build rescans and finds it pending, which is what a build from scratch says too.
+            sig = (f"{PROPERTY}/uninterrupted-build-keeps-succeeded-consumer-of-dropped-producer-"
+                   "restart-does-not")
         raise Violation(
-            f"{PROPERTY}/returncode-differs-after-restart",
+            sig,
             f"{where}: restarted build ended {rc}, the uninterrupted one {ref_rc}; "
             f"edits {[s['edit'] for s in case['stages']]}",
         )
